@@ -47,7 +47,31 @@ func (e *Env) canonNames(l *facts.Level, leaves []*ir.Leaf) ([]*ir.Leaf, []strin
 	if l.Names == nil || !l.NamesBits {
 		return leaves, nil
 	}
-	nc := &namesCanon{e: e, l: l, field: ir.Field(ir.Param(0), l.Names).Key(), fns: map[string]*keyFunc{}}
+	if e.keyFuncs == nil {
+		e.keyFuncs = map[*facts.Level]map[string]*keyFunc{}
+	}
+	first := e.keyFuncs[l] == nil
+	if first {
+		e.keyFuncs[l] = map[string]*keyFunc{}
+	}
+	nc := &namesCanon{e: e, l: l, field: ir.Field(ir.Param(0), l.Names).Key(), fns: e.keyFuncs[l]}
+	if first && l.DecodeOne != nil {
+		// the key function shows in the per-token decoder (which maps the token's name to its bit); functions that
+		// only use constant masks (Encode, IsEmpty) are read through it
+		if sf := e.P.SSAFunc(l.DecodeOne); sf != nil {
+			if dl, err := ir.Leaves(sf, ir.LeafOptions{Forward: true, Effects: true, Inline: e.inlineHelpers()}); err == nil {
+				for _, lf := range dl {
+					for _, g := range lf.Guards {
+						nc.term(g)
+					}
+					for _, ef := range lf.Effects {
+						nc.effect(ef)
+					}
+				}
+				nc.bad = nil
+			}
+		}
+	}
 	out := make([]*ir.Leaf, len(leaves))
 	for i, lf := range leaves {
 		n := *lf
